@@ -215,6 +215,17 @@ func directedTTL(cfg StackCfg) []Scenario {
 			feed("b", Command{Kind: pend, Key: k, Data: []byte("xy"), Opaque: 3}),
 			feed("t", get)))
 	}
+	if cfg.L1 == "chunked" {
+		// the chunking handler converts a relative lifetime into a date with the proxy's clock and
+		// re-stores it on append / prepend: around the 30-day boundary, with real time passing
+		for _, ttl := range []uint32{thirtyDays - 1, thirtyDays} {
+			out = append(out, mk(fmt.Sprintf("C09-dir-30d-append-%d", ttl),
+				feed("b", Command{Kind: "set", Key: k, Flags: 5, Exptime: ttl, Data: []byte("value"), Opaque: 1}),
+				Step{Kind: "sleep", Secs: 1},
+				feed("b", Command{Kind: "append", Key: k, Data: []byte("xy"), Opaque: 3}),
+				feed("t", get)))
+		}
+	}
 	if cfg.Orca == "l1l2" {
 		// back-fill of items with various remaining lifetimes
 		for _, ttl := range []uint32{0, 50, thirtyDays, uint32(now) + thirtyDays - 5, uint32(now) + thirtyDays + 5000} {
@@ -277,7 +288,7 @@ func init() {
 		if tier == "thorough" {
 			per, steps = 60, 45
 		}
-		rep.Rule = "seeded random command sequences with TTLs from {0, 1..5 s, large relative, 30 days -1/0/+1, absolute future, absolute past}, clock advances (1..4 s and 100..200000 s; not on stacks with a chunked L1, whose handler reads the proxy clock, which the harness cannot move) and L1 evictions on every stack configuration (pass-through and chunked L1, main and batch port); replies judged by the single-map specification (expiry is visible once the clock moves); after every command the implementation's backends are inspected directly: the tier of record holds each key with exactly the specification's deadline (chunked tier: the metadata entry), a pass-through L1 holds what it serves with L2's deadline, and each back-fill write carries L2's deadline; reply bytes, traces and contents also compared with the Lean model"
+		rep.Rule = "seeded random command sequences with TTLs from {0, 1..5 s, large relative, 30 days -1/0/+1, absolute future, absolute past}, clock advances (1..4 s and 100..200000 s; not on stacks with a chunked L1, whose handler reads the proxy clock, which the harness cannot move; there, directed sets with 30 days -1/0 followed by a real second of waiting and an append) and L1 evictions on every stack configuration (pass-through and chunked L1, main and batch port); replies judged by the single-map specification (expiry is visible once the clock moves); after every command the implementation's backends are inspected directly: the tier of record holds each key with exactly the specification's deadline (chunked tier: the metadata entry), a pass-through L1 holds what it serves with L2's deadline, and each back-fill write carries L2's deadline; reply bytes, traces and contents also compared with the Lean model"
 		runSequences(rep, tier, seed+29, per, seqOpts{Steps: steps, MaxChunks: 2, Evict: 0.15, Advance: 0.3, Probe: ttlProbe}, nil)
 	}
 }
